@@ -28,7 +28,7 @@ from .c01 import fix_prog
 
 PROPERTY = 'C20'
 LEVEL = 'exploration'
-RULE = ('pipeline programs of depth <= 2 (quick) / 3 (thorough, 3 sources) plus '
+RULE = ('pipeline programs of depth <= 2 (quick) / plus a 1/29 sample of depth 3 (thorough, 3 sources) plus '
         'random programs of depth <= 5 with injected failing map stages; each '
         'wrapped pipeline is observed next to the plain one (full, partial and '
         'indexed access, behind thread prefetch) and its per-stage report is '
@@ -334,9 +334,12 @@ def run_shard(spec, res):
     if spec['what'] == 'exh':
         cnt = 0
         for d in spec['depths']:
+            # depth 3 is a seed-dependent 1/29 sample (2.5 M programs otherwise)
+            stride = 1 if d < 3 else 29
             for prog in exhaustive(d, SOURCES if d < 3 else SOURCES3):
                 cnt += 1
-                if cnt % spec['mod'] == spec['rem']:
+                if cnt % spec['mod'] == spec['rem'] and \
+                        (cnt // spec['mod']) % stride == spec['seed'] % stride:
                     check(ld, prog, res)
     else:
         rng = rng_for(spec['seed'], PROPERTY, spec['name'])
